@@ -414,7 +414,8 @@ class Program:
     def __init__(self, cfg, d):
         self.cfg = cfg
         self.raw = d
-        from . import inline, loopidiom
+        from . import inline, loopidiom, rename
+        self.renamed = rename.run(d)
         self.inlined = inline.run(d)
         self.loop_idioms = loopidiom.run(d)
         self.fns = [Fn(self, f) for f in d["fns"]]
